@@ -88,6 +88,14 @@ def impl_entities(fmt, text):
             "canon": " | ".join(canon) if fmt in REGEX_FORMATS else None}
 
 
+def impl_class(fmt, text):
+    """round 4: the full walk with ALL spans (canonical form of impl.parse.show_entry) plus the entity views"""
+    from impl.parse import impl_parse
+    r = impl_entities(fmt, text)
+    r["spans"] = impl_parse(fmt, text)
+    return r
+
+
 def impl_props_val(raw):
     from compare_locales.parser.properties import PropertiesEntityMixin
 
